@@ -589,20 +589,16 @@ impl Runner {
                         }
                     }
                 }
+                // "a trader whose position on that vAMM was already updated in that block": by their own order or close,
+                // or by being liquidated - whether or not a record of the position is left afterwards
                 Op::Liquidate { vamm, trader, .. } => {
                     self.model.liq_block[*vamm] = post.height;
                     let t = self.w.resolve(trader);
-                    if post.position(*vamm, &t).is_none() {
-                        self.model.touched.remove(&(*vamm, t));
-                    }
+                    self.model.touched.insert((*vamm, t), post.height);
                 }
                 Op::Open { vamm, .. } | Op::Close { vamm, .. } => {
                     let t = self.w.resolve(&step.actor);
-                    if post.position(*vamm, &t).is_some() {
-                        self.model.touched.insert((*vamm, t), post.height);
-                    } else {
-                        self.model.touched.remove(&(*vamm, t));
-                    }
+                    self.model.touched.insert((*vamm, t), post.height);
                 }
                 Op::PayFunding { vamm } | Op::SettleFunding { vamm } => {
                     self.model.settlements[*vamm] += 1;
